@@ -28,6 +28,8 @@ pub enum Src {
     Wrong(u64),
     BoxWrong(u64),
     Lazy(usize, usize, usize),
+    /// lazy_clone()^depth of a user-defined AnyValueCloneable + AnyValue whose `Type` is the concrete element type
+    UserLazy(usize),
     Temp(usize, TKind, usize),
 }
 #[derive(Clone, Debug, PartialEq)]
@@ -166,6 +168,7 @@ fn parse_src(s: &str) -> Src {
         ["wrong", k] => Src::Wrong(u(k) as u64),
         ["boxwrong", k] => Src::BoxWrong(u(k) as u64),
         ["lz", d, v, i] => Src::Lazy(u(d), u(v), u(i)),
+        ["ulz", d] => Src::UserLazy(u(d)),
         ["tmp", v, k, i] => Src::Temp(u(v), parse_tkind(k), u(i)),
         _ => panic!("bad src {:?}", s),
     }
